@@ -65,7 +65,12 @@ func (m *Machine) resolveIntrinsic(fn *ssa.Function) intrinsicFn {
 	}
 	// spec overrides: run a harness function instead
 	if target, ok := m.W.overrides[name]; ok {
-		return func(m *Machine, caller *frame, pos token.Pos, _ *ssa.Function, args []Value) Value {
+		return func(m *Machine, caller *frame, pos token.Pos, orig *ssa.Function, args []Value) Value {
+			// a wrapper may call the function it replaces (e.g. with a smaller constant): calls from the
+			// override target itself reach the original body
+			if caller != nil && caller.fn == target {
+				return m.execSSA(caller, pos, orig, args, nil)
+			}
 			m.stubs["override:"+name]++
 			return m.callSSA(caller, pos, target, args, nil)
 		}
